@@ -196,6 +196,10 @@ OPS = [
      lambda z: np.add(z, [0.1] * len(z), dtype=np.float32)),
     ("ufunc with dtype= and a Python scalar operand under casting='safe'", lambda z: z.dtype.kind == "f",
      lambda z: np.add(_single(z), 1.5, dtype=np.float32, casting="safe")),
+    ("ufunc with dtype=int64, casting='unsafe' and a Python float operand", lambda z: z.dtype.kind == "f",
+     lambda z: np.add(pb.Signal((z.data * 8).astype(np.int64), sample_rate=z.sample_rate), 2.5, dtype="i8", casting="unsafe")),
+    ("ufunc with dtype=float32 on integer data and a Python int first operand", lambda z: z.dtype.kind == "f",
+     lambda z: np.ldexp(3, pb.Signal((abs(z.data) * 8).astype(np.uint8), sample_rate=z.sample_rate), dtype="f4")),
     ("ERR ufunc with casting='no' on operands of two widths", lambda z: z.dtype.kind == "f",
      lambda z: np.add(_single(z), np.ones(z.shape[-1:], dtype=np.float64), casting="no")),
     ("out= larger than the broadcast operands", floaty, lambda z: _out_broadcast(z)),
